@@ -301,3 +301,30 @@ def _c04b():
 def _c04c():
     a1, a2, s1, s2 = R("a1"), R("a2"), R("s1"), R("s2")
     return [s1 > 0, s2 > 0], (a1 == a2 * s2 / s1) == (a2 == a1 * s1 / s2)
+
+
+# C02 / C17 -----------------------------------------------------------------------
+@lemma("C02/value-in-base-units", ["C02"],
+       "a result (amount, unit) with amount * num(unit) == a*b*n1*n2 has "
+       "exactly the product of the operands' values in base units")
+def _c02a():
+    a, b, n1, n2, un, amt = R("a"), R("b"), R("n1"), R("n2"), R("un"), R("amt")
+    return [un > 0, amt == (a * b * (n1 * n2)) / un], \
+        amt * un == (a * n1) * (b * n2)
+
+
+@lemma("C02/quotient-in-base-units", ["C02"],
+       "same for quotients")
+def _c02b():
+    a, b, n1, n2, un, amt = R("a"), R("b"), R("n1"), R("n2"), R("un"), R("amt")
+    return [un > 0, b != 0, n2 > 0, amt == ((a / b) * (n1 / n2)) / un], \
+        amt * un == (a * n1) / (b * n2)
+
+
+@lemma("C17/hit-equals-miss", ["C17", "C02"],
+       "two resolutions (amount, unit) of one denotation -- a cached one and "
+       "a freshly computed one, or two units of one bucket -- have the same "
+       "value in base units")
+def _c17a():
+    n, a1, u1, a2, u2 = R("n"), R("a1"), R("u1"), R("a2"), R("u2")
+    return [a1 * u1 == n, a2 * u2 == n], a1 * u1 == a2 * u2
